@@ -1103,10 +1103,10 @@ def gen_cases(rng, tier):
     global _TIER
     _TIER = tier
     n_fn, n_e2e, n_probe = (5000, 300, 60) if tier == "quick" else (200000, 10000, 1000)
-    n_act, n_ref, n_loop = (300, 1250, 120) if tier == "quick" else (3000, 25000, 1000)
+    n_act, n_ref, n_loop = (300, 1250, 120) if tier == "quick" else (2000, 20000, 600)
     cases = enum_fn_shapes(3)
     cases += [g_fn(rng) for _ in range(n_fn)]
-    cases += [g_fn_big(rng) for _ in range(n_fn // 50)]
+    cases += [g_fn_big(rng) for _ in range(100 if tier == "quick" else 2000)]
     modes = [None] * 12 + ["clash", "clash", "surplus", "unknown-named", "dup-named", "reserved"]
     cases += [g_prog(rng, rng.choice(modes)) for _ in range(n_e2e)]
     cases += [g_hist(rng, passed=rng.random() < 0.15) for _ in range(n_e2e if tier == "quick" else n_e2e // 2)]
